@@ -126,7 +126,7 @@ func (e *Engine) asn1Marshal(st *State, arg Value) Value {
 	return Tuple{e: []Value{Slice{arr: st.alloc(a), len: 1, cap: 1}, Iface{}}}
 }
 
-func opaqueErr() Value { return Iface{t: types.Universe.Lookup("error").Type(), v: BV(8, 1)} }
+func opaqueErr() Value { return Iface{t: types.Universe.Lookup("error").Type(), v: BV(8, 1)} } // asn1 errors are never compared
 
 func (e *Engine) asn1Unmarshal(st *State, b Slice, target Value) Value {
 	iv := target.(Iface)
